@@ -6,10 +6,10 @@ from props import _topo
 def spec(tier, seed):
     P = _topo.PARAMS
     enc = ("sierradb::writer_thread_pool::bucket_id_to_thread_id",)
-    hs = [Harness("c16_bucket_to_thread_routing", obligation="for every list of <= 6 distinct bucket ids (symbolic), thread count <= len: each listed bucket maps to exactly one thread id < threads (the value both Worker::new's ownership filter and append_events' routing compute), monotone and gap-free in list position",
+    hs = [Harness("c16_bucket_to_thread_routing", obligation="for every list of <= 6 distinct bucket ids (symbolic), thread count <= len: each listed bucket maps to exactly one thread id < threads (the value both Worker::new's ownership filter and append_events' routing compute), monotone and gap-free in list position; a bucket id that is not listed is routed to no thread",
                   encodes=enc, bounds=f"<= {P['LMAX']} buckets, symbolic ids and thread count; unwind {P['UNW']}", timeout_s=900),
-          Harness("c16_every_thread_owns_a_bucket_and_unlisted_is_none", obligation="every writer thread owns at least one bucket, owner counts differ by at most one, and a bucket id that is not listed is routed to no thread",
-                  encodes=enc, bounds=f"bucket lists [10..10+len), len <= {P['LMAX']}, all thread counts", timeout_s=900),
+          Harness("c16_every_thread_owns_a_bucket", obligation="for every bucket count <= 6 and every thread count <= bucket count: every writer thread owns at least one bucket and owner counts differ by at most one",
+                  encodes=enc, bounds=f"bucket lists [10..10+len), len <= {P['LMAX']}, all thread counts (concrete enumeration inside one harness)", timeout_s=900),
           Harness("topo_vacuity_witness", expect_fail=True, obligation="twin", timeout_s=300)]
     u = Unit("topo", _topo.generate, hs, jobs=4, workers=1)
     return PropSpec("C16", [u],
